@@ -401,9 +401,6 @@ class Spec(PropSpec):
             "nonce written by each connector and read by its acceptor, stream drops, established_tcp_stream_count and the "
             "verif-hooks table sizes after every step; a case is non-trivial when a connect was accepted or refused; "
             "distinct = distinct (hosts, capacity, script)")
-    partial_note = ("c12_pairing_partial: 'a SYN is acknowledged at most once' (no id twice in the accept log) is not "
-                    "proved on the model; in the code it is Rust's move semantics of Syn{ack}; it is covered by the "
-                    "correspondence and by the python oracle (no peer accepted twice) only")
     assumptions = [
         "tokio oneshot / Notify / mpsc are replaced by flags and bounded FIFOs (modelled, not verified)",
         "SYN delivery order, loss (partitions) and cancellation points are inputs of the model; theorems quantify over all of them",
@@ -457,7 +454,7 @@ class Spec(PropSpec):
         return F.histogram(cases)
 
 
-THEOREMS = ["c12_pairing_partial", "c12_poll_decided", "c12_fifo", "c12_accept_first_alive", "c12_accept_result",
+THEOREMS = ["c12_pairing", "c12_syn_token_unique", "c12_poll_decided", "c12_fifo", "c12_accept_first_alive", "c12_accept_result",
             "c12_refused_unowned", "c12_refused_partitioned", "c12_refused_no_listener", "c12_refused_listener_dropped",
             "c12_refused_removes_entry", "c12_no_residue", "c12_cancel_removes_entry", "c12_nonvacuous"]
 Spec.theorems = THEOREMS
